@@ -10,7 +10,7 @@ pub(crate) struct DuplicateEventId {
     duplicate: LitInt,
     first: Span,
     service_ident: Ident,
-    free_id: u32,
+    free_id: Option<u32>,
 }
 
 impl DuplicateEventId {
@@ -20,7 +20,7 @@ impl DuplicateEventId {
             _ => None,
         });
 
-        let mut max_id = events
+        let mut max_id: u32 = events
             .clone()
             .filter_map(|ev| ev.id().value().parse().ok())
             .max()
@@ -30,8 +30,8 @@ impl DuplicateEventId {
             events.filter(|ev| ev.id().value().parse::<u32>().is_ok()),
             |ev| ev.id().value(),
             |duplicate, first| {
-                max_id += 1;
-                let free_id = max_id;
+                let free_id = max_id.checked_add(1);
+                max_id = free_id.unwrap_or(max_id);
                 validate.add_error(Self {
                     schema_name: validate.schema_name().to_owned(),
                     duplicate: duplicate.id().clone(),
@@ -66,7 +66,10 @@ impl Diagnostic for DuplicateEventId {
                 .context(schema, self.first, "first defined here");
         }
 
-        report = report.help(format!("use a free id, e.g. {}", self.free_id));
+        if let Some(free_id) = self.free_id {
+            report = report.help(format!("use a free id, e.g. {free_id}"));
+        }
+
         report.render()
     }
 }
